@@ -57,6 +57,12 @@ def _case(draw, max_len):
         else:
             case['max_dist'] = draw(st.sampled_from([1.0, 10.0, 1000.0]))
     case['off'] = draw(st.sampled_from(['none', 'zero']))
+    # a third, usually shorter series: matrices of >= 3 series of unequal lengths reuse one settings struct for all pairs
+    base = 'L' if case.get('exact') else 'F'
+    l3 = draw(st.integers(1, max(1, min(l1, l2))))
+    case['s3'] = draw(gen.series(l3, l3, base, ndim))
+    if case['use_pruning'] and len({l1, l2, l3}) > 1:
+        case['penalty'] = None      # ED is only a valid bound with a penalty when the lengths are equal
     if case.get('max_length_diff') == 0:
         # 0 is the C encoding of "off": max_length_diff=0 is not expressible in both engines
         case['max_length_diff'] = draw(st.integers(1, 3))
@@ -118,8 +124,9 @@ def c_entries(case):
                                                                          array.array('d', case['s2']),
                                                                          only_ub=ub, **kw)))
         out.append(('dtw_cc.distance', lambda: dtw_cc.distance(a1, a2, only_ub=ub, **ckw)))
-        out.append(('C:dtw_distance', lambda: L.dtw_distance(capi.ptr(f1), l1, capi.ptr(f2), l2,
-                                                             ctypes.byref(cs))))
+        fnc = lambda: L.dtw_distance(capi.ptr(f1), l1, capi.ptr(f2), l2, ctypes.byref(cs))   # noqa
+        fnc.cs = cs
+        out.append(('C:dtw_distance', fnc))
         if case.get('inner') == 'euclidean':
             out.append(('C:dtw_distance_euclidean', lambda: L.dtw_distance_euclidean(
                 capi.ptr(f1), l1, capi.ptr(f2), l2, ctypes.byref(cs))))
@@ -135,8 +142,9 @@ def c_entries(case):
         out.append(('dtw.distance(use_c,use_ndim)', lambda: dtw.distance(a1, a2, only_ub=ub, use_c=True,
                                                                          use_ndim=True, **kw)))
         out.append(('dtw_cc.distance_ndim', lambda: dtw_cc.distance_ndim(a1, a2, only_ub=ub, **ckw)))
-        out.append(('C:dtw_distance_ndim', lambda: L.dtw_distance_ndim(capi.ptr(f1), l1, capi.ptr(f2), l2, nd,
-                                                                       ctypes.byref(cs))))
+        fnc = lambda: L.dtw_distance_ndim(capi.ptr(f1), l1, capi.ptr(f2), l2, nd, ctypes.byref(cs))   # noqa
+        fnc.cs = cs
+        out.append(('C:dtw_distance_ndim', fnc))
         if not ub:
             out.append(('ndim.distance_matrix[list]', lambda: dtw_ndim.distance_matrix(
                 [a1, a2], ndim=nd, use_c=True, parallel=False, compact=True, **kw)[0]))
@@ -145,6 +153,25 @@ def c_entries(case):
                     np.array([case['s1'], case['s2']], dtype=np.double), ndim=nd, use_c=True, parallel=False,
                     compact=True, **kw)[0]))
     return out
+
+
+def matrix_entries(case):
+    """Distance matrices over three series (short one first) through the C routines, with the pairs they cover."""
+    import numpy as np
+    from dtaidistance import dtw, dtw_ndim
+    nd = case['ndim']
+    kw = lib_kwargs(case, True)
+    S = [case['s3'], case['s1'], case['s2']]
+    A = [np.array(s, dtype=np.double) for s in S]
+    pairs = [(0, 1), (0, 2), (1, 2)]
+    out = []
+    if nd == 1:
+        out.append(('distance_matrix3[list]', pairs, lambda: dtw.distance_matrix(A, use_c=True, parallel=False, compact=True,
+                                                                                  **kw)))
+    else:
+        out.append(('ndim.distance_matrix3[list]', pairs, lambda: dtw_ndim.distance_matrix(
+            A, ndim=nd, use_c=True, parallel=False, compact=True, **kw)))
+    return S, out
 
 
 def run(case):
@@ -179,8 +206,33 @@ def run(case):
         res.count('python_engine_raised')
         res.cls('python-raised')
         py = None
+    # C matrices over three series of unequal length vs the Python engine pair by pair
+    if not case.get('only_ub') and 's3' in case:
+        S3, mats = matrix_entries(case)
+        for name, pairs, fn in mats:
+            vals, mexc = libcall(fn)
+            res.count('c_calls')
+            if mexc:
+                res.fail('%s:%s' % (name, mexc), 'C distance matrix over three series raised')
+                continue
+            for (a_, b_), v in zip(pairs, list(vals)):
+                if nd == 1:
+                    pv, pexc = libcall(dtw.distance, list(S3[a_]), list(S3[b_]), use_c=False, **kw)
+                else:
+                    pv, pexc = libcall(dtw.distance, np.array(S3[a_], dtype=np.double), np.array(S3[b_], dtype=np.double),
+                                       use_c=False, use_ndim=True, **kw)
+                if pexc is None and not ref.close(pv, v):
+                    res.fail('matrix3:c-deviates:%s' % case.get('inner'),
+                             '%s entry (%d,%d)=%r, python single pair %r' % (name, a_, b_, v, pv))
+                    break
     for name, fn in c_entries(case):
+        # the kernels must treat the settings struct as read-only (one struct serves all pairs of a matrix and all
+        # threads): byte-compare it around every direct kernel call
+        cs_obj = getattr(fn, 'cs', None)
+        before = bytes(cs_obj) if cs_obj is not None else None
         c, cexc = libcall(fn)
+        if cs_obj is not None and bytes(cs_obj) != before:
+            res.fail('settings-modified:' + name, 'the kernel modified the DTWSettings struct it was handed')
         res.count('c_calls')
         if cexc:
             res.fail('%s:%s' % (name, cexc), 'C entry point raised; python=%r reference=%r' % (py, r),
